@@ -254,6 +254,10 @@ def run(ctx):
             tvals = sorted(short(peel(c[2][0])) for c in terms)
             avals = sorted(short(peel(it['value'])) for it in after)
             rep.check(r2, tvals == avals and after[0] is blob, 'smb1-session:ByteCount', 'ByteCount sums len() of %d constants; %d constants follow, blob first: %s' % (len(tvals), len(avals), tvals == avals), bc['loc'])
+            # ... and what ByteCount counts is really there: each of those appends lies on every path to the reply (an
+            # optional string that the count still includes makes the length lie for some requests only)
+            opt = [it['loc'] for it in [bc] + after if not it['must'] or it['in_loop']]
+            rep.check(r2, not opt, 'smb1-session:ByteCount-bytes-unconditional', 'ByteCount and the %d appends it counts are executed on every path to the reply; conditional ones: %s' % (len(after), opt), bc['loc'])
         else:
             rep.bad(r2, 'smb1-session:lengths', 'expected SecurityBlobLength and ByteCount, found %d length fields' % len(lens))
     else:
